@@ -26,6 +26,8 @@ type Trace struct {
 	Steps  int    `json:"steps"`
 	// Decisions counts branch decisions taken (tests evaluated).
 	Decisions int `json:"decisions"`
+	// LateDecisions counts decisions taken after at least one command changed the game state.
+	LateDecisions int `json:"late_decisions"`
 	// Path is a rolling hash of the decisions (for the distinct-path measure).
 	Path uint64 `json:"path"`
 }
